@@ -100,6 +100,33 @@ impl<'a> ark_std::io::Read for Drip<'a> {
     }
 }
 
+/// a writer that takes at most `k` bytes per `write` call (a pipe, a socket): `write_all` must still deliver everything
+struct DripW(Vec<u8>, usize);
+impl ark_std::io::Write for DripW {
+    fn write(&mut self, buf: &[u8]) -> ark_std::io::Result<usize> {
+        let n = buf.len().min(self.1);
+        self.0.extend_from_slice(&buf[..n]);
+        Ok(n)
+    }
+    fn flush(&mut self) -> ark_std::io::Result<()> { Ok(()) }
+}
+
+/// the bytes `f` writes through chunking writers of several chunk sizes (all must agree), and into a 20-byte buffer, which must be
+/// an error and not a silently truncated encoding
+fn ser_drip(f: &dyn Fn(&mut dyn ark_std::io::Write) -> Result<(), ark_serialize::SerializationError>) -> String {
+    let mut outs = Vec::new();
+    for k in [1usize, 5, 31, 32] {
+        let mut w = DripW(Vec::new(), k);
+        if f(&mut w).is_err() { return format!("err-write-chunk-{}", k); }
+        outs.push(tohex(&w.0));
+    }
+    if outs.iter().any(|o| o != &outs[0]) { return format!("chunked-writes-differ {}", outs.join(" ")); }
+    let mut small = [0u8; 20];
+    let mut sl: &mut [u8] = &mut small[..];
+    if f(&mut sl).is_ok() { return "short-buffer-accepted".into(); }
+    outs.remove(0)
+}
+
 /// a stream that ends early is a length error, anything else an encoding error
 fn ser_err(e: ark_serialize::SerializationError, len: usize) -> String {
     match e {
@@ -263,6 +290,10 @@ fn enc(form: &str, x: &Element) -> String {
         "ser" => { let mut v = Vec::new(); x.serialize_compressed(&mut v).unwrap(); tohex(&v) }
         "ser_aff" => { let mut v = Vec::new(); xa.serialize_compressed(&mut v).unwrap(); tohex(&v) }
         "ser_enc" => { let mut v = Vec::new(); x.vartime_compress().serialize_compressed(&mut v).unwrap(); tohex(&v) }
+        "ser_drip" => ser_drip(&|w| x.serialize_compressed(w)),
+        "ser_aff_drip" => ser_drip(&|w| xa.serialize_compressed(w)),
+        "ser_enc_drip" => { let e = x.vartime_compress(); ser_drip(&|w| e.serialize_compressed(w)) }
+        "ser_size" => { let e = x.vartime_compress(); if (x.compressed_size(), xa.compressed_size(), e.compressed_size()) == (32, 32, 32) { tohex(&e.0) } else { "size-not-32".into() } }
         // Debug / Display show the hex of the encoding: the observable is that hex string, whatever surrounds it
         "debug" => hex64(&format!("{:?}", x)),
         "display" => hex64(&format!("{}", x)),
